@@ -547,9 +547,16 @@ def _root_jobs(cfgl, modes_models, roots=("root_f64", "root_f32")):
     return [{"config": c, "mode": m, "model": mod, "kind": "root", "target": r} for c in cfgl for (m, mod) in modes_models for r in roots]
 
 
+def _e4cl(tier, quick=("default",)):
+    """configurations for the whole-program E4 runs; MLX_ONLY_CONFIG=<cfg>[,<cfg>] overrides (triage aid, never used by registered commands)"""
+    if os.environ.get("MLX_ONLY_CONFIG"):
+        return os.environ["MLX_ONLY_CONFIG"].split(",")
+    return list(quick) if tier == "quick" else E4_CONFIGS
+
+
 def check_C04(tier):
     rep = Report("C04", tier)
-    cl = ["default"] if tier == "quick" else E4_CONFIGS
+    cl = _e4cl(tier)
     fx = F.build_many([(c, "dbg") for c in cl])
     results = run_jobs(_root_jobs(cl, [("dbg", "valid")]))
     fxs = {c: fx[(c, "dbg")] for c in cl}
@@ -584,7 +591,7 @@ def check_C04(tier):
 
 def check_C08(tier):
     rep = Report("C08", tier)
-    cl = ["default"] if tier == "quick" else E4_CONFIGS
+    cl = _e4cl(tier)
     mm = [("rel", "arbitrary"), ("dbg", "arbitrary")] if tier == "quick" else [("rel", "arbitrary"), ("dbg", "arbitrary")]
     fx = F.build_many([(c, "rel") for c in cl])
     results = run_jobs(_root_jobs(cl, mm))
